@@ -94,9 +94,14 @@ def m_remove(st, o, u):
 
 
 def diff(a, b):
+    """members are compared as ordered lists (Universe.vertices is in insertion order); the order of an object's `universes`
+    is not specified, so those are compared as duplicate-free collections."""
     out = []
     for k in ("members", "universes"):
         for n in sorted(set(a[k]) | set(b[k])):
+            x, y = a[k].get(n), b[k].get(n)
+            if k == "universes" and x is not None and y is not None and len(x) == len(set(x)) and sorted(map(str, x)) == sorted(map(str, y)):
+                continue
             if a[k].get(n) != b[k].get(n):
                 out.append(f"{n}.{'vertices' if k == 'members' else 'universes'}: derived {a[k].get(n)} vs model {b[k].get(n)}")
     return out
@@ -158,7 +163,10 @@ def run(ctx):
                     elif post != p.pre:
                         why = "removing a non-member raised but changed the graph: " + "; ".join(diff(post, p.pre)[:3])
                 elif out.kind == "raise":
-                    why = f"raised {out.excname}; the reference model completes the call"
+                    if "add" in op and (orole, urole) in mem and not diff(post, p.pre):
+                        why = None   # re-adding a member: the statement only requires that nothing is duplicated; refusing loudly is allowed
+                    else:
+                        why = f"raised {out.excname}; the reference model completes the call"
                 else:
                     d = diff(post, model)
                     if d:
